@@ -44,5 +44,7 @@ class H2Run:
         self.real = {k: parse_h2_case(v) for k, v in rc.items()}
         self.model = {k: parse_h2_case(v) for k, v in self.model_lines.items()}
 
-    def same_block(self, cid): return self.real_lines.get(cid) == self.model_lines.get(cid)
+    def same_block(self, cid):
+        """the ADS line (regex::analyze_dfa_size, judged separately by C12) is not part of the automaton correspondence"""
+        return [l for l in self.real_lines.get(cid) or [] if not l.startswith("ADS ")] == self.model_lines.get(cid)
     def crashed(self): return [k for k in self.meta if k not in self.real]
